@@ -600,18 +600,66 @@ def boolean(name):
     return SymBool(z3.Bool(name))
 
 
+class SymArray(np.ndarray):
+    """object ndarray that may hold proxies. The only difference from ndarray: `astype(<float dtype>)` keeps the proxies
+    (as SymReal) instead of calling float() on them, so that vectorised code such as `a[mask].astype("float")` runs
+    symbolically. Arrays created through the facade (symx/shim.py) and by real_array/bool_array are views of this type."""
+
+    def __array_wrap__(self, obj, context=None, return_scalar=False):
+        # reductions of ndarray subclasses come back as 0-d arrays: hand out the element itself, as ndarray does
+        if isinstance(obj, np.ndarray) and obj.ndim == 0:
+            return obj[()]
+        if type(obj) is np.ndarray and obj.dtype == object:
+            return obj.view(SymArray)
+        if isinstance(obj, SymArray) and obj.dtype != object:
+            return obj.view(np.ndarray)
+        return obj
+
+    def astype(self, dtype, *a, **kw):
+        if self.dtype == object and _floatish(dtype):
+            flat = np.ndarray.reshape(self, -1) if self.ndim != 1 else self
+            if any(is_sym(e) for e in flat):
+                out = np.empty(self.shape, dtype=object).view(SymArray)
+                fo = out.reshape(-1)
+                for i, e in enumerate(self.flat):
+                    fo[i] = sym_float(e) if is_sym(e) else np.float64(e)
+                return out
+        r = np.ndarray.astype(self, dtype, *a, **kw)
+        return r.view(np.ndarray) if r.dtype != object else r
+
+
+def _floatish(dtype):
+    if dtype in (float, "float", "float64", "d", np.float64, np.floating, "f8", "double", np.double):
+        return True
+    try:
+        return getattr(dtype, "__name__", "") == "SFloat" or np.dtype(dtype).kind == "f"
+    except TypeError:
+        return False
+
+
+SymArray.__name__ = "ndarray"        # code (and harnesses) that report type(x).__name__ see the same name in both modes
+SymArray.__qualname__ = "ndarray"
+
+
+def as_symarray(x):
+    """view a plain object ndarray as SymArray (no copy); anything else is returned unchanged"""
+    if type(x) is np.ndarray and x.dtype == object:
+        return x.view(SymArray)
+    return x
+
+
 def real_array(name, shape):
     a = np.empty(shape, dtype=object)
     for idx in np.ndindex(*a.shape):
         a[idx] = real(name + "_" + "_".join(map(str, idx)))
-    return a
+    return a.view(SymArray)
 
 
 def bool_array(name, shape):
     a = np.empty(shape, dtype=object)
     for idx in np.ndindex(*a.shape):
         a[idx] = boolean(name + "_" + "_".join(map(str, idx)))
-    return a
+    return a.view(SymArray)
 
 
 def sym_int(x):
